@@ -113,6 +113,9 @@ Variable flagged : nat -> Prop.
 Hypothesis flagged_assoc : forall k, flagged k -> forall a b c, R (binf C k (binf C k a b) c) (binf C k a (binf C k b c)).
 
 Variable vals : list D.
+(* what is required of the variable list of every level (it bounds the arity check of eval_relaxed) *)
+Variable okvars : list str -> Prop.
+Hypothesis okvars_len : forall v, okvars v -> length v <= length vals.
 
 (* ---- denotation ---- *)
 Fixpoint dden (e : deepex D) : D :=
@@ -140,7 +143,7 @@ Proof. reflexivity. Qed.
 Fixpoint dwf (e : deepex D) : Prop :=
   match e with
   | DE nodes bops uop vars =>
-      length nodes = S (length bops) /\ length vars <= length vals /\
+      length nodes = S (length bops) /\ okvars vars /\
       (forall o, In o bops -> bcomm o = true -> flagged (bidx o)) /\
       (fix all (l : list (dnode D)) : Prop :=
          match l with
@@ -152,7 +155,7 @@ Definition nwf (n : dnode D) : Prop :=
   match n with DNum _ => True | DVar i _ => i < length vals | DExpr e' => dwf e' end.
 Lemma dwf_unfold nodes bops uop vars :
   dwf (DE nodes bops uop vars) <->
-  length nodes = S (length bops) /\ length vars <= length vals /\
+  length nodes = S (length bops) /\ okvars vars /\
   (forall o, In o bops -> bcomm o = true -> flagged (bidx o)) /\ Forall nwf nodes.
 Proof.
   cbn [dwf].
@@ -246,7 +249,7 @@ Proof.
   induction e as [nodes bops uop vars IH] using deep_ind. intros Hwf.
   apply dwf_unfold in Hwf. destruct Hwf as (Hlen & Har & Hfl & Hnodes).
   rewrite eval_deep_unfold, dden_unfold.
-  destruct (Nat.ltb_spec (length vals) (length vars)) as [Hlt|_]; [lia|].
+  destruct (Nat.ltb_spec (length vals) (length vars)) as [Hlt|_]; [pose proof (okvars_len _ Har); lia|].
   (* the nodes *)
   assert (Hnums : exists nums, mapM neval nodes = Ok nums /\ Forall2 R nums (map nden nodes)).
   { clear Hlen. induction nodes as [|n tl IHn]; [exists []; split; [reflexivity|constructor]|].
